@@ -113,7 +113,7 @@ func GenProgram(t *rapid.T) *Node {
 	// most programs start with a few declarations so that calls, constructors and methods have targets
 	for i, n := 0, g.n(0, 3, "nprelude"); i < n; i++ {
 		g.budget++
-		prog.C = append(prog.C, g.stmtOf(pick(g, []string{"funcdecl", "funcdecl", "ctor", "ctor", "method-obj", "accessor-obj", "args-fn", "valueof-obj", "scope-shift", "var-shadowed", "with-throw", "proto-getter"}, "prelude"), true)...)
+		prog.C = append(prog.C, g.stmtOf(pick(g, []string{"funcdecl", "funcdecl", "ctor", "ctor", "method-obj", "accessor-obj", "args-fn", "valueof-obj", "scope-shift", "var-shadowed", "with-throw", "proto-getter", "eval-delete"}, "prelude"), true)...)
 	}
 	prog.C = append(prog.C, g.stmts(g.n(2, 10, "ntop"), true)...)
 	// finish with an expression statement most of the time so that the completion value is interesting
@@ -159,7 +159,7 @@ func (g *G) stmt(declsAllowed bool) []*Node {
 		}
 	}
 	if declsAllowed && g.depth <= 3 {
-		choices = append(choices, "funcdecl", "funcdecl", "ctor", "method-obj", "accessor-obj", "args-fn", "valueof-obj", "scope-shift", "var-shadowed", "with-throw", "proto-getter")
+		choices = append(choices, "funcdecl", "funcdecl", "ctor", "method-obj", "accessor-obj", "args-fn", "valueof-obj", "scope-shift", "var-shadowed", "with-throw", "proto-getter", "eval-delete")
 	}
 	if g.sc.inFunc {
 		choices = append(choices, "return", "return")
@@ -490,6 +490,22 @@ func (g *G) stmtOf(c string, declsAllowed bool) []*Node {
 			g.declare(fn, kFn)
 			return []*Node{pre, NS("funcdecl", fn, N("params", Id("u")), body),
 				ExprStmt(Call(Id("log"), Str("eval-shift"), Call(Id(fn), NS("bool", "false")), Call(Id(fn), NS("bool", "true")), Call(Id(fn), NS("bool", "false"))))}
+		}
+	case "eval-delete":
+		// bindings declared by eval code — direct or indirect — are deletable (10.4.2, 10.5 configurableBindings);
+		// the same names declared by the program itself are not
+		if g.NoEval {
+			return []*Node{g.logStmt()}
+		}
+		v, f := g.fresh("ev"), g.fresh("ef")
+		mode := pick(g, []string{"direct", "indirect", "indirect"}, "edmode")
+		sub := N("program", N("var", NS("decl", v, g.literal(kVal))), NS("funcdecl", f, N("params"), Block(N("return", Num(1)))))
+		del := func(name string) *Node { return &Node{K: "un", S: "delete", C: []*Node{Id(name)}} }
+		typ := func(name string) *Node { return &Node{K: "un", S: "typeof", C: []*Node{Id(name)}} }
+		return []*Node{
+			ExprStmt(&Node{K: "eval", S: mode, C: []*Node{sub}}),
+			ExprStmt(Call(Id("log"), Str("eval-declared"), typ(v), typ(f))),
+			ExprStmt(Call(Id("log"), Str("eval-delete"), del(v), typ(v), del(f), typ(f))),
 		}
 	case "with-throw":
 		// an exception leaves a with body and is caught in the same activation: the with object must be off
